@@ -1,1 +1,250 @@
 // Kani contract harnesses for /repo/arrow-avro/src/writer/encoder.rs (child module: sees private items via super::)
+use super::*;
+#[path = "/verif/kani/support/spec.rs"]
+mod spec;
+use spec::*;
+
+// C17 writer half of the Avro primitive layer. Sink = fixed `&mut [u8]` (std's Write for slices: copies
+// what fits, advances; nothing allocates). Stub: alloc::fmt::format (error text).
+
+/// canonical (shortest) Avro varint of a zig-zag image — same text as in kani/arrow-avro/reader/vlq.rs
+fn spec_encode(zz: u64) -> ([u8; 10], usize) {
+    let bitlen = 64 - zz.leading_zeros() as usize;
+    let len = if zz == 0 { 1 } else { (bitlen + 6) / 7 };
+    let mut out = [0u8; 10];
+    let mut i = 0;
+    while i < len {
+        let g = ((zz >> (7 * i)) & 0x7f) as u8;
+        out[i] = if i + 1 < len { g | 0x80 } else { g };
+        i += 1;
+    }
+    (out, len)
+}
+/// zig-zag image by its arithmetic definition: 2x for x >= 0, -2x - 1 for x < 0
+fn zigzag(x: i64) -> u64 {
+    (if x >= 0 { 2 * x as i128 } else { -2 * (x as i128) - 1 }) as u64
+}
+
+// Contract (C17): for EVERY i64 x, write_long(x) into a sink with room writes exactly the canonical
+// shortest zig-zag varint of x — 1..=10 bytes, byte i = 7-bit group i of zigzag(x), continuation bit on
+// all but the last, no trailing zero group — and nothing else. write_int(x32) = write_long(x32 as i64)
+// (1..=5 bytes). With a sink that is too small the call returns Err (C18), never Ok.
+// (Reader half: arrow-avro.reader.vlq.avro_long_decode_canonical decodes exactly this byte string back to x.)
+// @unit name=avro_write_long_canonical props=C17,C18 kind=complete fns=write_long,write_int timeout=480 mem=3
+#[kani::proof]
+#[kani::unwind(12)]
+#[kani::stub(alloc::fmt::format, stub_format)]
+fn avro_write_long_canonical() {
+    let as_int: bool = kani::any();
+    let x: i64 = if as_int { kani::any::<i32>() as i64 } else { kani::any() };
+    let cap: usize = kani::any();
+    kani::assume(cap <= 12);
+    let mut buf = [0xAAu8; 12];
+    let (want, len) = spec_encode(zigzag(x));
+    let used;
+    let r;
+    {
+        let mut w: &mut [u8] = &mut buf[..cap];
+        r = if as_int { write_int(&mut w, x as i32) } else { write_long(&mut w, x) };
+        used = cap - w.len();
+    }
+    assert!(r.is_ok() == (len <= cap));
+    if r.is_ok() {
+        assert!(used == len);
+        let i: usize = kani::any();
+        kani::assume(i < 12);
+        assert!(buf[i] == if i < len { want[i] } else { 0xAA });
+    }
+    assert!(!as_int || len <= 5);
+    kani::cover!(r.is_ok() && len == 10 && x == i64::MIN);
+    kani::cover!(r.is_ok() && len == 1 && x == -64);
+    kani::cover!(r.is_ok() && as_int && len == 5 && x == i32::MAX as i64);
+    kani::cover!(r.is_err() && cap == 9);
+    std::mem::forget(r);
+}
+
+// Contract (C17): write_bool writes the single byte 0 / 1; write_len_prefixed(bytes) writes the canonical
+// varint of the length followed by exactly the bytes (payload <= 4 bytes); Err if the sink is too small.
+// @unit name=avro_write_bool_len_prefixed props=C17,C18 kind=bounded bound=payload<=4_bytes fns=write_bool,write_len_prefixed timeout=480 mem=3
+#[kani::proof]
+#[kani::unwind(12)]
+#[kani::stub(alloc::fmt::format, stub_format)]
+fn avro_write_bool_len_prefixed() {
+    let cap: usize = kani::any();
+    kani::assume(cap <= 8);
+    let mut buf = [0xAAu8; 8];
+    if kani::any() {
+        let v: bool = kani::any();
+        let used;
+        let r;
+        {
+            let mut w: &mut [u8] = &mut buf[..cap];
+            r = write_bool(&mut w, v);
+            used = cap - w.len();
+        }
+        assert!(r.is_ok() == (cap >= 1));
+        if r.is_ok() {
+            assert!(used == 1 && buf[0] == v as u8 && buf[1] == 0xAA);
+        }
+        kani::cover!(r.is_ok() && v);
+        kani::cover!(r.is_err());
+        std::mem::forget(r);
+    } else {
+        let payload: [u8; 4] = kani::any();
+        let k: usize = kani::any();
+        kani::assume(k <= 4);
+        let used;
+        let r;
+        {
+            let mut w: &mut [u8] = &mut buf[..cap];
+            r = write_len_prefixed(&mut w, &payload[..k]);
+            used = cap - w.len();
+        }
+        assert!(r.is_ok() == (1 + k <= cap));
+        if r.is_ok() {
+            assert!(used == 1 + k);
+            assert!(buf[0] == 2 * k as u8); // zig-zag of a small non-negative length, one byte
+            let i: usize = kani::any();
+            kani::assume(i < 7);
+            assert!(buf[1 + i] == if i < k { payload[i] } else { 0xAA });
+        }
+        kani::cover!(r.is_ok() && k == 4);
+        kani::cover!(r.is_ok() && k == 0);
+        kani::cover!(r.is_err() && cap == k);
+        std::mem::forget(r);
+    }
+}
+
+/// the signed integer denoted by a big-endian two's-complement byte string of <= 16 bytes (empty = 0)
+fn sext128(b: &[u8]) -> i128 {
+    let mut v: i128 = if !b.is_empty() && b[0] & 0x80 != 0 { -1 } else { 0 };
+    let mut i = 0;
+    while i < b.len() {
+        v = (v << 8) | b[i] as i128;
+        i += 1;
+    }
+    v
+}
+
+// Contract (C17) — Kani pair of the Verus proof of the same function. For every big-endian two's-complement
+// byte string `be` of <= 16 bytes, r = minimal_twos_complement(be):
+//  (i)   r is a SUFFIX of be (same memory, ends where be ends); empty in = empty out, else |r| >= 1;
+//  (ii)  r denotes the same signed integer as be (compared as sign-extended 128-bit values);
+//  (iii) r is minimal: |r| = 1 or its first byte is not a redundant sign byte (not (r[0] = 0x00 and r[1] < 0x80)
+//        and not (r[0] = 0xFF and r[1] >= 0x80)).
+// @unit name=minimal_twos_complement_pair props=C17 kind=bounded bound=be<=16_bytes fns=minimal_twos_complement timeout=480 mem=3
+#[kani::proof]
+#[kani::unwind(18)]
+fn minimal_twos_complement_pair() {
+    let a: [u8; 16] = kani::any();
+    let n: usize = kani::any();
+    kani::assume(n <= 16);
+    let be = &a[..n];
+    let r = minimal_twos_complement(be);
+    assert!(r.len() <= n);
+    assert!(r.as_ptr() == a[n - r.len()..].as_ptr());
+    if n == 0 {
+        assert!(r.is_empty());
+    } else {
+        assert!(r.len() >= 1);
+        assert!(sext128(r) == sext128(be));
+        if r.len() >= 2 {
+            assert!(!(r[0] == 0x00 && r[1] < 0x80));
+            assert!(!(r[0] == 0xFF && r[1] >= 0x80));
+        }
+    }
+    kani::cover!(n == 16 && r.len() == 1 && r[0] == 0xFF);
+    kani::cover!(n == 16 && r.len() == 16);
+    kani::cover!(n == 5 && r.len() == 2 && r[0] == 0x00);
+    kani::cover!(n == 5 && r.len() == 2 && r[0] == 0xFF);
+    kani::cover!(n == 3 && r.len() == 1 && r[0] == 0x00);
+}
+
+/// the signed integer denoted by a big-endian two's-complement byte string of <= 8 bytes (empty = 0)
+fn sext64(b: &[u8]) -> i64 {
+    let mut v: i64 = if !b.is_empty() && b[0] & 0x80 != 0 { -1 } else { 0 };
+    let mut i = 0;
+    while i < b.len() {
+        v = (v << 8) | b[i] as i64;
+        i += 1;
+    }
+    v
+}
+
+// Contract (C17): write_sign_extended(out, src_be, n) for src of <= 8 bytes and 1 <= n <= 8 (an Avro fixed
+// has at least one byte; n = 0 is excluded, see REPORT) into a sink of capacity `cap`:
+//  Ok  <=> the integer v denoted by src fits n bytes (-2^(8n-1) <= v < 2^(8n-1)) and n <= cap;
+//  Ok  => exactly n bytes were written and they denote the same integer v (sign extension / truncation of
+//         redundant sign bytes only); bytes behind them are untouched.
+//  Err otherwise — a value that does not fit is never truncated silently.
+// @unit name=avro_write_sign_extended props=C17,C18 kind=bounded bound=src<=8_bytes_n_1..=8 fns=write_sign_extended timeout=480 mem=3
+#[kani::proof]
+#[kani::unwind(10)]
+#[kani::stub(alloc::fmt::format, stub_format)]
+fn avro_write_sign_extended() {
+    let s: [u8; 8] = kani::any();
+    let len: usize = kani::any();
+    kani::assume(len <= 8);
+    let n: usize = kani::any();
+    kani::assume(n >= 1 && n <= 8);
+    let cap: usize = kani::any();
+    kani::assume(cap <= 10);
+    let mut buf = [0xAAu8; 10];
+    let used;
+    let r;
+    {
+        let mut w: &mut [u8] = &mut buf[..cap];
+        r = write_sign_extended(&mut w, &s[..len], n);
+        used = cap - w.len();
+    }
+    let v = sext64(&s[..len]) as i128;
+    let half = 1i128 << (8 * n - 1);
+    let fits = v >= -half && v < half;
+    assert!(r.is_ok() == (fits && n <= cap));
+    if r.is_ok() {
+        assert!(used == n);
+        assert!(sext64(&buf[..n]) as i128 == v);
+        let i: usize = kani::any();
+        kani::assume(i >= n && i < 10);
+        assert!(buf[i] == 0xAA);
+    }
+    kani::cover!(r.is_ok() && len == 2 && n == 8 && v < 0); // sign extension with 0xFF
+    kani::cover!(r.is_ok() && len == 8 && n == 1 && v == -128); // truncation of redundant sign bytes
+    kani::cover!(r.is_ok() && len == n && n == 3);
+    kani::cover!(r.is_ok() && len == 0 && n == 2);
+    kani::cover!(r.is_err() && fits); // sink too small
+    kani::cover!(r.is_err() && !fits && len == 2 && n == 1 && v == 128); // 0x0080 needs two bytes
+    std::mem::forget(r);
+}
+
+// Contract (C17): the 64-byte pad chunking: a 1- or 2-byte source sign-extended to n in 60..=70 bytes
+// (crosses the 64-byte pad chunk) writes exactly n bytes: n - len pad bytes equal to the sign byte, then src.
+// @unit name=avro_write_sign_extended_pad64 props=C17 kind=bounded bound=src<=2_bytes_n_60..=70 fns=write_sign_extended tier=thorough timeout=900 mem=4
+#[kani::proof]
+#[kani::unwind(4)]
+#[kani::stub(alloc::fmt::format, stub_format)]
+fn avro_write_sign_extended_pad64() {
+    let s: [u8; 2] = kani::any();
+    let len: usize = kani::any();
+    kani::assume(len >= 1 && len <= 2);
+    let n: usize = kani::any();
+    kani::assume(n >= 60 && n <= 70);
+    let mut buf = [0xAAu8; 72];
+    let used;
+    let r;
+    {
+        let mut w: &mut [u8] = &mut buf[..];
+        r = write_sign_extended(&mut w, &s[..len], n);
+        used = 72 - w.len();
+    }
+    assert!(r.is_ok() && used == n);
+    let sign = if s[0] & 0x80 != 0 { 0xFF } else { 0x00 };
+    let i: usize = kani::any();
+    kani::assume(i < 72);
+    let want = if i < n - len { sign } else if i < n { s[i - (n - len)] } else { 0xAA };
+    assert!(buf[i] == want);
+    kani::cover!(n == 64 + len);
+    kani::cover!(n == 70 && sign == 0xFF && len == 2);
+    kani::cover!(n == 60);
+    std::mem::forget(r);
+}
